@@ -38,7 +38,7 @@ BUDGET = {
 @st.composite
 def _case(draw, tier):
     big = tier == "thorough"
-    desc = draw(gen.wellformed(wf_wds=(None, None, "wdir"), max_targets=10 if big else 7, max_files=14 if big else 10, ticks=4, min_targets=3,
+    desc = draw(gen.wellformed(wf_wds=(None, None, "wdir"), wds=(None, None, None, "w1"), max_targets=10 if big else 7, max_files=14 if big else 10, ticks=4, min_targets=3,
                                shapes=(0, 2, 4, 5), spellings=(0, 1, 2)))
     names = [t["name"] for t in desc["targets"]]
     vec = {n: draw(st.sampled_from(["unknown", "unknown", "completed", "failed", "cancelled"])) for n in names}
